@@ -334,6 +334,72 @@ def save_direct(p):
 
 
 # ============================================================================================
+# 2b. fix_output_filenames: the choice of the output name (Model/FixNames.v `fix_name`)
+# ============================================================================================
+
+def fix_names(p):
+    """For each case: a fresh directory pre-populated with the candidate names `existing` (index 0 = root+ext,
+    i = root_i+ext) and the `noise` names; call Simulation.fix_output_filenames (via 'init': through
+    Simulation.__init__ with relative names in the working directory; via 'method': directly on a bare
+    instance with an absolute output_filename); record Skip / ValueError / chosen names and the directory."""
+    out = []
+    top = tempfile.mkdtemp(prefix='c18-fix-', dir=BASE)
+    try:
+        for n, c in enumerate(p['cases']):
+            d = os.path.join(top, 'case%d' % n)
+            os.mkdir(d)
+            root, ext = c['root'], c['ext']
+            cand = lambda i: root + ext if i == 0 else root + '_' + str(i) + ext  # noqa: E731
+            before = {}
+            for fn in [cand(i) for i in c['existing']] + list(c['noise']):
+                before[fn] = 'content of ' + fn
+                with open(os.path.join(d, fn), 'w') as f:
+                    f.write(before[fn])
+            opts = {'output_filename': (root + ext) if c['via'] == 'init' else os.path.join(d, root + ext),
+                    'safe_write': c['safe'], 'overwrite_output': c['overwrite'], 'skip_if_output_exists': c['skip']}
+            if c.get('defaults'):       # rely on the defaults of the two options (both False)
+                del opts['overwrite_output'], opts['skip_if_output_exists']
+            r = {'outcome': None, 'name': None, 'backup': None}
+            os.chdir(d)
+            try:
+                sim = Simulation.__new__(Simulation)
+                if c['loaded']:
+                    sim.loaded_from_checkpoint = True
+                try:
+                    if c['via'] == 'init':
+                        sim.__init__(dict(dummy_options('pkl', c['safe'], 1), **opts))
+                    else:
+                        if not c['loaded']:
+                            sim.loaded_from_checkpoint = False
+                        sim.options = opts
+                        sim.fix_output_filenames()
+                    r['outcome'] = 'name'
+                    r['name'] = os.path.basename(str(sim.output_filename))
+                    r['dir_ok'] = os.path.dirname(str(sim.output_filename)) == ('' if c['via'] == 'init' else d)
+                    r['backup'] = None if sim._backup_filename is None else os.path.basename(str(sim._backup_filename))
+                except Skip:
+                    r['outcome'] = 'skip'
+                except ValueError as e:
+                    r['outcome'] = 'raise'
+                    r['msg'] = str(e)[:200]
+                except Exception as e:
+                    r['outcome'] = 'error: %s: %s | %s' % (type(e).__name__, e, traceback.format_exc()[-600:])
+            finally:
+                os.chdir(ORIG_CWD)
+            after = {}
+            for fn in os.listdir(d):
+                with open(os.path.join(d, fn)) as f:
+                    after[fn] = f.read(300)
+            r['changed'] = sorted(fn for fn in before if after.get(fn) != before[fn])
+            r['created'] = sorted(fn for fn in after if fn not in before)
+            out.append(r)
+            shutil.rmtree(d, ignore_errors=True)
+    finally:
+        shutil.rmtree(top, ignore_errors=True)
+    return out
+
+
+# ============================================================================================
 # 3. real simulations: plain run versus interrupted at every checkpoint + resumed
 # ============================================================================================
 
@@ -497,6 +563,8 @@ def main():
             res = fs_single(payload)
         elif kind == 'save_direct':
             res = save_direct(payload)
+        elif kind == 'fix_names':
+            res = fix_names(payload)
         elif kind == 'real':
             res = real_run(payload)
         else:
